@@ -13,9 +13,11 @@ import (
 	"strings"
 	"time"
 
+	"github.com/internetarchive/Zeno/internal/pkg/config"
 	"github.com/internetarchive/Zeno/internal/verif/lib/world"
 	"github.com/internetarchive/Zeno/internal/verif/vrt/hkit"
 	"github.com/internetarchive/Zeno/internal/verif/vrt/vsched"
+	"github.com/internetarchive/Zeno/pkg/models"
 )
 
 const propID = "C02"
@@ -27,12 +29,18 @@ type scen struct {
 	// Stop: a stop request (the real stop order) is a thread of the scenario: every deviation places it
 	// somewhere in the run; a seed that is still reported finished around it must have its records written
 	Stop bool `json:"stop,omitempty"`
+	// TempDirGone: the temp dir (--warc-temp-dir) has vanished when the crawl starts: spooling a large text
+	// body fails. A local fault costs the URL (it is reported failed); it must never be reported archived
+	TempDirGone bool `json:"temp_dir_gone,omitempty"`
 }
 
 func (s *scen) name() string {
 	n := fmt.Sprintf("%s w%d a%d", s.Def.Name, s.Opt.Workers, s.Opt.MaxConcurrentAssets)
 	if s.Stop {
 		n += " +stop"
+	}
+	if s.TempDirGone {
+		n += " +temp-dir-gone"
 	}
 	return n
 }
@@ -45,6 +53,9 @@ func scenario(s *scen) *vsched.Scenario {
 		o.Tmp = os.Getenv("VERIF_TMP")
 		o.SlowWrites = true
 		w = world.New(o, s.Def.Build())
+		if s.TempDirGone {
+			os.RemoveAll(config.Get().WARCTempDir)
+		}
 		x.Data = w
 	}
 	sc.Body = func() {
@@ -116,7 +127,7 @@ func oracle(s *scen, w *world.World) error {
 		}
 		// byte-exact: the record holds what crossed the connection, so the crawler must have read
 		// the whole body of every response it lets the writer record
-		if f.End >= 0 && f.BodyRead != f.BodyLen {
+		if f.End >= 0 && f.BodyRead != f.BodyLen && !failedInTree(w, f.URL) {
 			return fmt.Errorf("payload-truncated: the accepted %d response of %s (attempt %d) was closed after %d of %d body bytes: its record cannot be byte-identical", f.Status, f.URL, f.Attempt, f.BodyRead, f.BodyLen)
 		}
 		i, ok := owner[f.URL]
@@ -135,6 +146,9 @@ func oracle(s *scen, w *world.World) error {
 		if f.Start > fin.Step {
 			continue // fetched after the finish: C01's business
 		}
+		if f.BodyRead != f.BodyLen && failedInTree(w, f.URL) {
+			continue // a local fault cut the read short: the URL is reported failed, nothing is claimed about it
+		}
 		last := len(w.FetchesOf(f.URL))-1 == f.Attempt
 		if f.Written < 0 || f.Written > fin.Step {
 			kind := "final-attempt"
@@ -145,6 +159,19 @@ func oracle(s *scen, w *world.World) error {
 		}
 	}
 	return nil
+}
+
+// failedInTree: the crawler itself reports the URL as failed (it makes no claim to have archived it).
+func failedInTree(w *world.World, u string) bool {
+	failed := false
+	for _, m := range w.Finished {
+		m.Item.Traverse(func(n *models.Item) {
+			if n.GetURL().String() == u && n.GetStatus() == models.ItemFailed {
+				failed = true
+			}
+		})
+	}
+	return failed
 }
 
 func sig(v *vsched.Violation) string {
@@ -207,6 +234,11 @@ func scenarios(tier string) []scen {
 			out = append(out, scen{Def: d, Opt: opt, P: p})
 		}
 	}
+	// a local fault while a large text body is spooled
+	out = append(out, scen{Def: world.SiteDef{Name: "page+2.2 MiB text asset", Seeds: []string{H + "/page"}, Nodes: []world.Node{page(H+"/page", H+"/big.txt", H+"/a.png"),
+		{URL: H + "/big.txt", Kind: "bigtext"}, {URL: H + "/a.png", Kind: "bin"}}}, Opt: world.Options{Workers: 1, MaxConcurrentAssets: 1, MaxRetry: 0, MaxRedirect: 2}, P: 1, TempDirGone: true})
+	out = append(out, scen{Def: world.SiteDef{Name: "page+2.2 MiB text asset", Seeds: []string{H + "/page"}, Nodes: []world.Node{page(H+"/page", H+"/big.txt", H+"/a.png"),
+		{URL: H + "/big.txt", Kind: "bigtext"}, {URL: H + "/a.png", Kind: "bin"}}}, Opt: world.Options{Workers: 1, MaxConcurrentAssets: 1, MaxRetry: 0, MaxRedirect: 2}, P: 1})
 	// the same ordering clause around a stop request
 	for _, d := range defs[:4] {
 		out = append(out, scen{Def: d, Opt: world.Options{Workers: 1, MaxConcurrentAssets: 1, MaxRetry: 1, MaxRedirect: 2}, P: P - 1, Stop: true})
